@@ -29,6 +29,7 @@ Mk(tpl, t, j) ==
        [] tpl = "TERM" -> E(9, "TERM", 0, [ttid |-> IF t = 1 THEN 2 ELSE 1])
        [] tpl = "TPID" -> E(10, "TPID", 0, [pid |-> 300 + t])
        [] tpl = "THD" -> E(11, "THD", 0, [pid |-> 400 + t, ttid |-> t])
+       [] tpl = "KN" -> E(12, "KNOWN", 0, [x |-> 0])          \* a named code without decoder (e.g. lost events): inert
 
 RECURSIVE SeqsUpTo(_, _)
 SeqsUpTo(S, n) == IF n = 0 THEN {<<>>}
